@@ -62,7 +62,7 @@ static ALLOC: counting::Counting = counting::Counting;
 
 // ------------------------------------------------------------------ templates
 
-pub const KINDS: [&str; 19] = [
+pub const KINDS: [&str; 20] = [
     "pairs", "vectors", "strings", "closures", "continuations", "eval", "toplevel", "symbols",
     "bignums", "mixed", "errors", "syntaxerrors", "unbound", "globalrefs",
     // generated code whose LEXICAL variable names are fresh every iteration (handed to eval and dropped)
@@ -80,6 +80,9 @@ pub const KINDS: [&str; 19] = [
     // complete evaluation, n times (what a host does that stops a runaway evaluation): the frames of the abandoned
     // evaluation must not stay behind as roots
     "abandoned",
+    // builtins that allocate HUNDREDS of cells per instruction (vector->list, string->list, append, reverse): the
+    // free list runs out long before an instruction-count based collection point comes (seed C12e-2)
+    "bulk",
 ];
 
 const BIG: &str = "(* 10000000000 10000000000)";
@@ -87,7 +90,7 @@ const BIG: &str = "(* 10000000000 10000000000)";
 /// `(mk j)`: one object of the kind, kept in the live list
 fn mk_body(kind: &str) -> String {
     match kind {
-        "pairs" | "sliced" | "abandoned" => "(list j (cons j j))".into(),
+        "pairs" | "sliced" | "abandoned" | "bulk" => "(list j (cons j j))".into(),
         "vectors" => "(make-vector 4 j)".into(),
         "strings" => "(string-append \"live\" (number->string j))".into(),
         "closures" | "toplevel" | "errors" | "syntaxerrors" | "unbound" | "globalrefs" | "evallex" | "shorterrors" | "contchain" => "(let ((a j) (b (* j 2))) (lambda (x) (+ x a b)))".into(),
@@ -115,6 +118,8 @@ fn mk_body(kind: &str) -> String {
 fn garbage_body(kind: &str) -> String {
     match kind {
         "pairs" | "sliced" | "abandoned" => "(car (list i (cons i i) (list i i i) (append (list i) (list i))))".into(),
+        // no Scheme-level loop over the elements (length, map …): that would spend 25 instructions per cell
+        "bulk" => "(begin (vector->list (make-vector 200 i)) (string->list (make-string 120 #\\a)) (vector->list (make-vector 60 i)) i)".into(),
         "evallex" => "((lambda (v) (procedure? (eval (list 'lambda (list v) (list 'lambda '() v))))) (string->symbol (string-append \"lexvar\" (number->string i))))".into(),
         "vectors" => "(+ (vector-ref (make-vector 5 i) 0) (vector-length (vector i i i))
                          (vector-length (list->vector (list i i))) (vector-length (vector-copy (vector i 2))))"
